@@ -14,6 +14,7 @@ def main():
     if os.path.exists(p):
         reg = {r["dir"]: r for r in json.load(open(p))}
     rows = []
+    notdet = []
     n = det = neut = missed_first = 0
     for d in sorted(glob.glob(os.path.join(ROOT, "seeded", "*"))):
         if not os.path.isdir(d):
@@ -29,6 +30,8 @@ def main():
         note = " ".join(m.get("note", "").split())[:220].replace("|", "/")
         n += 1
         det += verdict == "DETECTED"
+        if verdict != "DETECTED":
+            notdet.append(f"{name} ({verdict.lower()})")
         neut += verdict == "NEUTRALISED" or not m.get("detected_by")
         missed_first += "missed" in note.lower()
         rows.append(f"| {name} | {files} | {summ} | {by} | {verdict.lower()}{(': ' + clauses) if clauses else ''} | {note} |")
@@ -37,8 +40,8 @@ def main():
     text = head + "\n".join(rows) + "\n\n" + \
         f"Summary: {n} seeded changes stored; last regression run (`harness/all_mutants.py`, seed 1; seeds 2 and 3 were run as well): " \
         f"{det} detected by the quick tier of the check named in the fourth column (the property they were written for, or C08 for " \
-        f"the index defects that were written for C02 / C15 / C17), {n - det} not: C08_m2, which has nothing left to break since the " \
-        f"repair of the N look-up. " \
+        f"the index defects that were written for C02 / C15 / C17), {n - det} not: {', '.join(notdet) or '-'} (C08_m2 has nothing left to " \
+        f"break since the repair of the N look-up). " \
         f"{missed_first} of them were missed by the first version of the respective check and led to the strengthenings named in the note column.\n"
     dp = os.path.join(ROOT, "DESIGN.md")
     s = open(dp).read()
